@@ -213,7 +213,7 @@ type profile struct {
 
 var allActs = []string{"equivocate", "badparent", "staleqc", "inflate", "dupsigner", "relabel", "subquorum",
 	"wrongblock", "genesisview", "futuretimeout", "badtimeoutsig", "dupvote", "multivote", "zerovote", "unknownvote",
-	"strayvote", "replay", "liefetch", "silent", "staleTC", "swapids", "nosig", "sameview", "aggreplay", "forgevote", "forgetc", "forgecontrib", "aggtwin", "aggattest", "aggforge", "roguekey", "payloadeq", "qceq", "aggswap", "aggstale", "spoofproposer", "dupbatch", "zeroview", "anoncontrib", "lockless", "noqctimeout"}
+	"strayvote", "replay", "liefetch", "silent", "staleTC", "swapids", "nosig", "sameview", "aggreplay", "forgevote", "forgetc", "forgecontrib", "aggtwin", "aggattest", "aggforge", "roguekey", "payloadeq", "qceq", "aggswap", "aggstale", "spoofproposer", "dupbatch", "zeroview", "anoncontrib", "lockless", "noqctimeout", "genesissig"}
 
 func profileFor(prop string) profile {
 	pr := profile{byz: 0.6, acts: allActs, faults: 6, leaders: []string{"round-robin", "round-robin", "round-robin", "fixed", "carousel", "reputation", "scripted"}}
@@ -257,7 +257,7 @@ func profileFor(prop string) profile {
 		pr.leaders = []string{"round-robin", "fixed", "scripted"}
 	case "C16":
 		pr.byz = 0.5
-		pr.acts = append(append([]string{}, allActs...), "qceq", "qceq", "qceq", "qceq", "qceq", "qceq", "qceq", "qceq")
+		pr.acts = append(append([]string{}, allActs...), "qceq", "qceq", "qceq", "qceq", "qceq", "qceq", "qceq", "qceq", "genesissig", "genesissig", "genesissig", "genesissig", "genesissig", "genesissig")
 		pr.leaders = []string{"round-robin", "fixed", "carousel", "carousel", "reputation", "reputation"}
 	}
 	return pr
